@@ -10,6 +10,12 @@ Random outputs (`split`, `sample_with_replacement`, `sample_individual_map_with_
 checked by the relations of the theorems (`isFoldPartition`, `groupsUnsplit`, `partSizesOK`,
 `isBootstrapOf`), evaluated by the Lean driver on the real outputs.
 Formulas go through the C++ engine; they are kept valid (known columns, + - * comparisons and/or).
+Round 3: the helpers of `biogeme.tools.database` are also called DIRECTLY on the frame of the object as it is at that moment
+(`flatten_database(df, merge_id, row_name, identical_columns)` with every option at its default and given, on any merge column:
+groups that are not consecutive — wave by wave, one late row, random order —, labels that are not positions, duplicate labels;
+`count_number_of_groups` on the frame itself), next to `mdcev_row_split`, `get_sample_size`, `get_number_of_observations`; each is
+judged by a Python oracle written from the statement (every cell of the table is read back from the flat table and nothing else is
+in it) and compared with the Lean model `Tbl.flattenDirect` / `DB.rowSplit` / `DB.sampleSize`.
 """
 
 from __future__ import annotations
@@ -51,13 +57,23 @@ MANIFEST = dict(
     'bootstrap rows exist (bootstrap_subset); extract_rows positional / IndexError (extract_positional); count (count_def; count_exact: only rows holding the value, absent value 0, '
     'counts of the distinct values add up to the number of rows; counts_def); flattening groups every row once, in table '
     'order per individual (flatten_roundtrip); invariant over ARBITRARY operation sequences by induction over op lists (history_inv_partial, fresh_inv; guard witnessed by '
-    'scale_panel_column_breaks_map); meaning of the relations evaluated on real outputs (fold_relation_sound, groups_relation_sound, bootstrap_relation_sound). Tie: per-step correspondence with the real Database object on '
-    'generated tables x operation sequences, relations evaluated by the driver on real random outputs, Python oracle from the property statement on every step.',
+    'scale_panel_column_breaks_map); meaning of the relations evaluated on real outputs (fold_relation_sound, groups_relation_sound, bootstrap_relation_sound). '
+    'tools/database.py called directly: the automatic detection of the identical columns is exact wherever the rows of an individual are (auto_identical_exact); '
+    'flatten_database with its defaults, for ANY row order and labels: one flat row per individual, every cell of every row is read back as <column> or <k>_<column> (k-th row of the individual in table order) '
+    'and the flat table holds nothing else (flatten_direct_reads_back); with row_name / identical_columns given: shape of every successful call, detected columns when identical_columns is None, '
+    'observation names pairwise different inside an individual, identical column = value of the first row, other cells under the key of their row (flatten_direct_ok_shape); '
+    'mdcev_row_split positional / IndexError (row_split_positional); get_sample_size / get_number_of_observations (sample_size_def); refused flatten calls (flatten_direct_refusals); '
+    'mdcev_count stores per row the number of non-zero listed entries in a new or existing column and changes nothing else (mdcev_count_values), keeps the sequence invariant unless it overwrites the panel column (mdcev_count_inv_partial). Tie: per-step correspondence with the real Database object on '
+    'generated tables x operation sequences, relations evaluated by the driver on real random outputs, Python oracle from the property statement on every step; '
+    'direct calls of flatten_database (all option combinations, merge column arbitrary, groups consecutive or not, labels != positions, after earlier operations), count_number_of_groups on the frame itself, '
+    'mdcev_row_split, get_sample_size, mdcev_count compared with the model and judged by oracles from the statement.',
     design='DESIGN.md §5 C13',
     technique='Lean 4 theorems over an executable row-major table model with pandas-style labels + per-step differential correspondence with real Database objects '
     '+ model relations evaluated on real random outputs',
     note='Trusted: pandas/numpy primitives (drop, iloc, sort_values, sample, array_split, concat, groupby), the C++ engine for formula values (compared with the model and a Python oracle). '
-    'Partial: invariant proved under the guard that scale_column is not applied to a panel column. Known findings: remove drops by label (deletes too much with duplicate labels); '
+    'Partial: invariant proved under the guard that scale_column is not applied to a panel column; for flatten_database with options the theorem gives the shape of successful calls (error cases: model + correspondence only); '
+    'flatten_database on an emptied frame is not judged (TypeError of set.union in the code, Database refuses empty tables). '
+    'Engine finding F-E9 (external, listed): a refusal of the missing-data code 99999 corrupts the heap of the process; the shape is excluded from the streams by construction and the listed input is run first in a child of its own. Thorough tier: the cases run in forked children of at most 3000 cases (one interpreter running all ~36000 cases died with SIGSEGV inside pandas/CPython 3.12.1 at unrelated places; no input reproduces it). Known findings: remove drops by label (deletes too much with duplicate labels); '
     'remove on a panel database leaves a stale individual map; panel() reorders the observations of an individual (unstable sort); a refused panel() leaves panelColumn set.',
 )
 
@@ -69,19 +85,22 @@ TRUSTED = [
 ASSUMPTIONS = [
     'values are finite normal doubles (|v| in 1e-20 .. 1e60 or 0): +, -, * and comparisons are IEEE operations in numpy, the C++ engine, Python and Lean Float alike (no denormal arithmetic)',
     'row labels of generated tables are integers; duplicates only in the stream dedicated to the known finding',
-    'formulas are valid (known columns; + - * neg, comparisons, and/or) so that the engine never raises',
+    'formulas are valid (known columns; + - * neg, comparisons, and/or) so that the engine never raises; a formula that would read the missing-data code 99999 on some row (also in a computed column) is not handed to the engine (refusal + listed engine finding F-E9)',
+    'column names of generated tables contain no underscore, so that the names <k>_<column> of a flat table are read back unambiguously',
 ]
 RULE = (
     'tables of 1-14 rows x 2-5 columns (labels with gaps / shuffled, id column contiguous or not, int and float columns, values k/8; in 30% of the tables and in a dedicated stream '
     'columns of other magnitudes: 6-16 digit identifiers one unit apart, clusters of nearly equal floats — adjacent doubles, 1e-12..1e-6 apart —, also as id column) x sequences of 1-8 operations among '
     'remove, add_column, define_variable, scale_column, panel, split(k, groups), sample_with_replacement, sample_individual_map_with_replacement, extract_rows, count (fixed value; '
-    'every value the column holds at that moment + the values next to them), generate_flat_panel_dataframe, values_from_database, count_number_of_groups; constants of the formulas also taken from the table and next to its values; non-trivial = sequence with a state-changing operation after which the label index has gaps or the table is a panel'
+    'every value the column holds at that moment + the values next to them), generate_flat_panel_dataframe, values_from_database, count_number_of_groups (on the frame itself), and (10% of the steps + a dedicated stream of panel-shaped tables stored wave by wave / with one late row / in random order / consecutively, balanced or not, labels = positions / gaps / shuffled / duplicates) direct calls flatten_database(df, merge column, row_name None|column|unknown, identical_columns None|[]|subset|unknown), mdcev_row_split(None|range), get_sample_size / get_number_of_observations, mdcev_count(listed columns with repetition / unknown, new or existing column); constants of the formulas also taken from the table and next to its values; non-trivial = sequence with a state-changing operation after which the label index has gaps or the table is a panel'
 )
 
 W_DUP = 'Database.remove: rows dropped by label (duplicate index labels)'
 W_PANEL_REMOVE = 'Database.remove on a panel database: individual map not rebuilt'
 W_PANEL_ORDER = 'Database.panel: order of the observations of an individual'
 W_PANEL_FAIL = 'Database.panel: refused call leaves panelColumn set'
+W_ENGINE_CRASH = 'engine crash (cythonbiogeme heap corruption after a missing-data refusal)'
+MISSING_CODE = 99999.0    # the engine refuses a row on which a Variable it reads takes this value (missing-data code)
 
 COLS = ['z', 'id', 'a', 'x10', 'x2', 'w']
 
@@ -315,6 +334,12 @@ def gen_ops(rng, table, allow_known=False):
     consts = table_consts(table, rng)
     scales = [0.5, 2.0, -1.0, 0.25, 0.0, 8.0, 1.0] + ([1e-3, 1e6, 1.0 + 2.0**-20] if table.get('wide') else [])
     for _ in range(n_ops):
+        if rng.random() < 0.1:
+            # the helpers of tools/database.py and the small extraction / size functions, on the table as it is at that moment
+            ops.append(gen_tool_op(rng, cols))
+            if ops[-1][0] == 'mdcev_count' and ops[-1][2] not in cols and all(c in cols for c in ops[-1][1]):
+                cols.append(ops[-1][2])
+            continue
         r = rng.random()
         data_cols = [c for c in cols]
         if r < 0.17 and (allow_known or not panel):
@@ -348,12 +373,169 @@ def gen_ops(rng, table, allow_known=False):
             # every value the column holds WHEN THE CALL IS MADE and the values next to them (resolved on the current state)
             ops.append(['counts', rng.choice(cols), rng.randint(0, 10**6)])
         elif r < 0.95:
-            ops.append(['flatten', rng.choice([None, None, ['id']])])
+            ops.append(['flatten', rng.choice([None, None, ['id']])] + ([True] if rng.random() < 0.2 else []))
         elif r < 0.98:
             ops.append(['values', gen_arith(rng, data_cols, 2, consts)])
         else:
             ops.append(['groups', rng.choice(cols)])
     return ops
+
+
+def gen_tool_op(rng, cols, merge=None):
+    """a DIRECT call of biogeme.tools.database.flatten_database on the current frame (any merge column — the rows of a group need
+    not be consecutive —, row_name / identical_columns at their defaults and given, rarely an unknown name), mdcev_row_split
+    (default = all rows, a range, rarely a position outside), the size functions or mdcev_count"""
+    r = rng.random()
+    if r < 0.6:
+        k = rng.random()
+        m = merge if (merge and k < 0.7) else ('id' if k < 0.7 and 'id' in cols else ('nope' if k > 0.96 else rng.choice(cols)))
+        k = rng.random()
+        rn = None if k < 0.6 else ('nope' if k > 0.97 else rng.choice(cols))
+        k = rng.random()
+        if k < 0.5:
+            ident = None
+        elif k < 0.6:
+            ident = []
+        elif k < 0.96:
+            ident = rng.sample(cols, rng.randint(1, len(cols)))
+        else:
+            ident = ['nope']
+        return ['flatten_direct', m, rn, ident]
+    if r < 0.78:
+        k = rng.random()
+        if k < 0.4:
+            return ['row_split', None]
+        return ['row_split', [rng.randint(-1 if rng.random() < 0.1 else 0, 13 if rng.random() < 0.3 else 3) for _ in range(rng.randint(0, 4))]]
+    if r < 0.88:
+        return ['sizes']
+    # mdcev_count: listed columns (a column may be listed twice; rarely an unknown name), result in a new column or over an existing one
+    listed = [rng.choice(cols) for _ in range(rng.randint(1, 3))] + (['nope'] if rng.random() < 0.06 else [])
+    fresh = [x for x in ['n1', 'b2', 'b10', 'new col', 'zz', 'cnt'] if x not in cols]
+    others = [c for c in cols if c != 'id']
+    name = rng.choice(fresh) if (fresh and (rng.random() < 0.7 or not others)) else rng.choice(others or ['cnt2'])
+    return ['mdcev_count', listed, name]
+
+
+def gen_flat_table(rng):
+    """tables for the direct flattening: individuals whose rows are stored wave by wave (1,2,3,1,2,3), with one late row
+    (1,1,2,2,1), in random order or consecutively; unbalanced; labels that are not positions (gaps, shuffled, duplicates);
+    columns: `z` constant within an individual, `a` varying, `w` the number of the observation (usable as row_name), `x10` constant
+    within an individual except on its LAST stored row (sometimes), `x2` equal on the first and last row but not in between
+    (sometimes), `id` not ascending"""
+    nid = rng.randint(1, 5)
+    idvals = rng.sample([1, 2, 3, 5, 8, 13, 4, 100001, 100002], nid)
+    sizes = [rng.randint(1, 4) for _ in idvals]
+    if rng.random() < 0.4:
+        sizes = [max(sizes)] * nid
+    layout = rng.choice(['waves', 'waves', 'late', 'late', 'random', 'contiguous'])
+    recs = [(i, k) for i, n in zip(idvals, sizes) for k in range(n)]
+    if layout == 'waves':
+        recs.sort(key=lambda p: p[1])           # stable: wave by wave, individuals in the order of idvals
+    elif layout == 'late':
+        late = [p for p in recs if p[1] == sizes[idvals.index(p[0])] - 1 and p[1] > 0]
+        late = rng.sample(late, rng.randint(1, len(late))) if late else []
+        recs = [p for p in recs if p not in late] + late
+    elif layout == 'random':
+        rng.shuffle(recs)
+        cnt, renum = {}, []
+        for i, _ in recs:                        # the observations of an individual are numbered in the order they are stored
+            renum.append((i, cnt.get(i, 0)))
+            cnt[i] = cnt.get(i, 0) + 1
+        recs = renum
+    cols = ['id'] + rng.sample(['z', 'a', 'w', 'x10', 'x2'], rng.randint(1, 5))
+    rng.shuffle(cols)
+    zval = {i: float(rng.randint(-2, 3)) for i in idvals}
+    xval = {i: rng.randint(-8, 8) / 4.0 for i in idvals}
+    dev10, dev2 = rng.random() < 0.6, rng.random() < 0.6
+    rows = []
+    for i, k in recs:
+        n = sizes[idvals.index(i)]
+        row = []
+        for c in cols:
+            if c == 'id':
+                row.append(float(i))
+            elif c == 'z':
+                row.append(zval[i])
+            elif c == 'a':
+                row.append(rng.randint(-40, 40) / 8.0)
+            elif c == 'w':
+                row.append(float(k + 1) if rng.random() < 0.9 else float(rng.randint(1, 3)))
+            elif c == 'x10':
+                row.append(xval[i] + (1.0 if dev10 and n > 1 and k == n - 1 else 0.0))
+            else:
+                row.append(xval[i] + (0.5 if dev2 and 0 < k < n - 1 else 0.0))
+        rows.append(row)
+    n = len(rows)
+    kind = rng.random()
+    if kind < 0.3:
+        index = list(range(n))
+    elif kind < 0.55:
+        index = sorted(rng.sample(range(3 * n + 2), n))
+    elif kind < 0.85:
+        index = rng.sample(range(-3, 3 * n + 2), n)
+    else:
+        index = [rng.randint(0, max(0, n // 2)) for _ in range(n)]
+    ids = [r[cols.index('id')] for r in rows]
+    panelable = sum(1 for p in range(n) if p == 0 or ids[p] != ids[p - 1]) == len(set(ids))
+    return {'cols': cols, 'index': index, 'rows': rows, 'int_cols': [c for c in cols if c in ('id', 'w') and rng.random() < 0.7],
+            'panelable': panelable, 'wide': False, 'layout': layout}
+
+
+def parse_flat(flat, cols, by_value):
+    """the cells of a real flat table, by individual and by `kind|key|column` (c = column kept once, p = <k>_<column>, v =
+    <value of row_name>_<column>); the names that cannot be read that way are returned too"""
+    keys, bad = [], []
+    for n in [str(c) for c in flat.columns]:
+        if n in cols:
+            keys.append('c|None|' + n)
+            continue
+        pre, _, c = n.partition('_')
+        try:
+            k = 'v|%d|%s' % (f2b(float(pre)), c) if by_value else 'p|%d|%s' % (int(pre), c)
+        except ValueError:
+            k = None
+        if k is None or c not in cols:
+            bad.append(n)
+            k = None
+        keys.append(k)
+    out = {}
+    mat = flat.to_numpy(dtype=float).tolist() if len(flat.columns) else [[] for _ in range(len(flat))]
+    for i, row in zip(flat.index.tolist(), mat):
+        cells = out.setdefault(f2b(float(i)), {})
+        for k, v in zip(keys, row):
+            if k is not None and not math.isnan(v):
+                cells[k] = f2b(v)
+    return out, bad
+
+
+def flat_oracle(state, merge, row_name, identical):
+    """from the statement (flattening returns what the table implies) and the docstring of flatten_database: per individual
+    (= all rows holding its id, wherever they are), a column that is the same on all rows of EVERY individual (or that the caller
+    declared so) is kept once with the value of the individual's first row; every other cell of its k-th row (table order) is
+    `<k>_<column>` / `<entry of row_name>_<column>`.  Returns (expected cells, the call is valid)."""
+    cols = state['cols']
+    j = cols.index(merge)
+    rows = [r[1] for r in state['rows']]
+    groups = {}
+    for r in rows:
+        groups.setdefault(r[j], []).append(r)
+    if identical is None:
+        ident = {c for ci, c in enumerate(cols) if all(len({r[ci] for r in g}) == 1 for g in groups.values())}
+    else:
+        ident = set(identical) | {merge}
+    q = None if row_name is None else cols.index(row_name)
+    exp = {}
+    for i, g in groups.items():
+        cells = {'c|None|' + c: g[0][ci] for ci, c in enumerate(cols) if c in ident and c != merge}
+        for k, r in enumerate(g):
+            key = 'p|%d|' % (k + 1) if q is None else 'v|%d|' % r[q]
+            for ci, c in enumerate(cols):
+                if c not in ident and c != merge and c != row_name:
+                    cells[key + c] = r[ci]
+        exp[i] = cells
+    unique = q is None or all(len({r[q] for r in g}) == len(g) for g in groups.values())
+    valid = q is None or ((row_name == merge or row_name not in ident) and unique)
+    return exp, (valid if unique or not (row_name == merge or row_name not in ident) else 'overwrites')
 
 
 def count_values(col_bits, salt):
@@ -507,8 +689,17 @@ def run_ops_case(ctx, res, case):
             unique = len(set(labels)) == len(labels)
             rd = row_dicts(before)
             vars_ok = lambda fm: all(v in before['cols'] for v in _vars(fm))  # noqa: E731
+            # a formula that reads the missing-data code 99999 is never handed to the engine in this process (listed engine finding
+            # F-E9: the refusal corrupts the heap; F-E2: every later evaluation is refused too) — decided on the INPUT of the call
+            fm_engine = op[1] if op[0] in ('remove', 'values') else (op[2] if op[0] in ('add_column', 'define_variable') and op[1] not in before['cols'] else None)
+            if fm_engine is not None and reads_code(before['cols'], [[b2f(v) for v in r[1]] for r in before['rows']], fm_engine):
+                res.tally('skipped: the formula reads the missing-data code 99999 (engine refusal, F-E9)')
+                continue
             # ------------------------------------------------------------------ state-changing operations
-            if op[0] in ('remove', 'add_column', 'define_variable', 'scale', 'panel'):
+            if op[0] == 'mdcev_count' and (not before['rows'] or op[2] == before['panel']):
+                res.tally('mdcev_count skipped (emptied table / target is the panel column)')
+                continue
+            if op[0] in ('remove', 'add_column', 'define_variable', 'scale', 'panel', 'mdcev_count'):
                 if (op[0] == 'scale' and op[1] not in before['cols']) or (op[0] == 'panel' and op[1] not in before['cols']):
                     res.tally('skipped: column absent')
                     continue
@@ -521,6 +712,9 @@ def run_ops_case(ctx, res, case):
                         o = outcome(lambda: d.add_column(to_expr(op[2]), op[1]))
                     else:
                         o = outcome(lambda: d.define_variable(op[1], to_expr(op[2])))
+                elif op[0] == 'mdcev_count':
+                    call = ['mdcev_count', op[1], op[2]]
+                    o = outcome(lambda: d.mdcev_count(list(op[1]), op[2]))
                 elif op[0] == 'scale':
                     call = ['scale', op[1], op[2]]
                     o = outcome(lambda: d.scale_column(op[1], b2f(op[2])))
@@ -557,6 +751,21 @@ def run_ops_case(ctx, res, case):
                         exp = [[r[0], r[1] + [v]] for r, v in zip(before['rows'], vals)]
                         if after['rows'] != exp or after['cols'] != before['cols'] + [op[1]]:
                             why, where = 'add_column did not store the value of the formula on every row next to the unchanged columns', 'Database.add_column'
+                    elif op[0] == 'mdcev_count':
+                        # for every row the number of listed columns with a non-zero entry, in the named column; nothing else changes
+                        if not all(c in before['cols'] for c in op[1]):
+                            why, where = 'mdcev_count accepted a column that does not exist', 'Database.mdcev_count'
+                        else:
+                            cnt = [f2b(float(sum(1 for c in op[1] if r[c] != 0))) for r in rd]
+                            if op[2] in before['cols']:
+                                k = before['cols'].index(op[2])
+                                exp = [[r[0], [v if i != k else n for i, v in enumerate(r[1])]] for r, n in zip(before['rows'], cnt)]
+                                ecols = before['cols']
+                            else:
+                                exp = [[r[0], r[1] + [n]] for r, n in zip(before['rows'], cnt)]
+                                ecols = before['cols'] + [op[2]]
+                            if after['rows'] != exp or after['cols'] != ecols:
+                                why, where = 'mdcev_count did not store the number of non-zero listed entries of every row next to the unchanged columns', 'Database.mdcev_count'
                     elif op[0] == 'scale':
                         j = before['cols'].index(op[1])
                         s = b2f(op[2])
@@ -759,7 +968,10 @@ def run_ops_case(ctx, res, case):
                          else res.diverge(f'step {info["step"]} counts', info, a, got), info)
                 res.tally('count values asked: %d' % (10 * (len(asked) // 10)))
             elif op[0] == 'flatten':
-                o = outcome(lambda: d.generate_flat_panel_dataframe(identical_columns=op[1]))
+                save = len(op) > 2 and bool(op[2])   # save_on_file=True: the same table is returned (the file goes to the scratch directory)
+                if save:
+                    res.tally('flatten: save_on_file')
+                o = outcome(lambda: d.generate_flat_panel_dataframe(save_on_file=save, identical_columns=op[1]))
                 if before['panel'] is None:
                     if o[0] != 'err':
                         res.violate(f'step {step} flattening a non-panel database did not raise', info, 'ok', 'BiogemeError', where='Database.generate_flat_panel_dataframe')
@@ -802,10 +1014,80 @@ def run_ops_case(ctx, res, case):
                     res.violate(f'step {step} values_from_database raised {o[1]}', info, o[1], exp, where='Database.values_from_database')
                 badd(ctx, res, {'op': 'eval', 'db': for_model(before), 'fm': op[1]},
                               lambda a, o=o, info=info: None if (unsign(a.get('ok')) == o[1] if o[0] == 'ok' else a.get('err') == o[1]) else res.diverge(f'step {info["step"]} values_from_database', info, a, o[1]), info)
+            elif op[0] == 'flatten_direct':
+                import biogeme.tools.database as tdb
+
+                _, merge, rn, ident = op
+                if not before['rows']:
+                    res.tally('flatten_direct of an emptied table (any outcome accepted)')
+                    continue
+                o = outcome(lambda: tdb.flatten_database(d.data, merge, rn, None if ident is None else list(ident)))
+                names_ok = merge in before['cols'] and (rn is None or rn in before['cols']) and (ident is None or all(c in before['cols'] for c in ident))
+                res.tally('flatten_direct: row_name %s, identical %s' % ('default' if rn is None else 'given', 'default' if ident is None else 'given'))
+                got = None
+                if o[0] == 'ok':
+                    flat = o[1]
+                    got, bad = parse_flat(flat, before['cols'], rn is not None)
+                    if bad or len(set(flat.index.tolist())) != len(flat.index):
+                        res.violate(f'step {step} flatten_database({merge}, {rn}, {ident}): columns {bad[:4]} are no cells of the table / an individual has several flat rows',
+                                    info, [str(c) for c in flat.columns][:12], 'one row per individual, columns <column> or <k>_<column>', where='tools.database.flatten_database')
+                if names_ok and before['rows']:
+                    exp, valid = flat_oracle(before, merge, rn, ident)
+                    jm = before['cols'].index(merge)
+                    ids = [r[1][jm] for r in before['rows']]
+                    contiguous = sum(1 for p, v in enumerate(ids) if p == 0 or ids[p - 1] != v) == len(set(ids))
+                    res.tally('flatten_direct: groups %s' % ('consecutive' if contiguous else 'NOT consecutive'))
+                    if valid == 'overwrites':
+                        # two rows of one individual carry the same entry of row_name: they cannot both be in the flat table
+                        valid = False
+                        if o[0] == 'ok':
+                            res.violate(f'step {step} flatten_database({merge}, row_name={rn}, {ident}) returned a table although two rows of one individual carry the same '
+                                        f'entry of {rn}: one observation overwrites the other', info, _brief(got), 'BiogemeError', where='tools.database.flatten_database')
+                    if valid and o[0] == 'err':
+                        res.violate(f'step {step} flatten_database({merge}, {rn}, {ident}) raised {o[1]}', info, o[1], 'flat table', where='tools.database.flatten_database')
+                    elif valid and got != exp:
+                        lost = [(i, k) for i in exp for k in exp[i] if got.get(i, {}).get(k) != exp[i][k]][:4]
+                        res.violate(f'step {step} flatten_database({merge}, row_name={rn}, identical_columns={ident}) does not return the cells of the table '
+                                    f'(groups {"consecutive" if contiguous else "not consecutive"}); first differences (individual, cell): '
+                                    f'{[(b2f(i), k, "table: %r" % b2f(exp[i][k]), "flat: %r" % (b2f(got[i][k]) if k in got.get(i, {}) else None)) for i, k in lost]}',
+                                    info, _brief(got), _brief(exp), where='tools.database.flatten_database')
+                badd(ctx, res, {'op': 'flatten_direct', 'cols': before['cols'], 'rows': before['rows'], 'merge': merge, 'row_name': rn, 'identical': ident},
+                     lambda a, o=o, got=got, info=info: None if ((o[0] == 'err' and a.get('err') == o[1]) or
+                                                                 (o[0] == 'ok' and 'ok' in a and {x[0]: {'%s|%s|%s' % (c[0], c[1], c[2]): c[3] for c in x[1]} for x in unsign(a['ok'])} == got))
+                     else res.diverge(f'step {info["step"]} flatten_database (direct call)', info, _brief(a), o[1] if o[0] == 'err' else _brief(got)), info)
+            elif op[0] == 'row_split':
+                rng_ = op[1]
+                o = outcome(lambda: [frame_rows(x.data) for x in d.mdcev_row_split(None if rng_ is None else list(rng_))])
+                n = len(before['rows'])
+                pos = list(range(n)) if rng_ is None else rng_
+                ok_range = all(0 <= i < n for i in pos)
+                if o[0] == 'ok':
+                    exp = [[before['rows'][i]] for i in pos] if ok_range else None
+                    if o[1] != exp:
+                        res.violate(f'step {step} mdcev_row_split({rng_}) does not return the rows at these positions, one by one', info, _brief(o[1]), _brief(exp), where='Database.mdcev_row_split')
+                elif ok_range:
+                    res.violate(f'step {step} mdcev_row_split({rng_}) raised {o[1]}', info, o[1], 'rows', where='Database.mdcev_row_split')
+                badd(ctx, res, {'op': 'row_split', 'db': for_model(before), 'range': rng_},
+                     lambda a, o=o, info=info: None if ((('ok' in a) and o[0] == 'ok' and unsign(a['ok']) == o[1]) or (('err' in a) and o[0] == 'err' and a['err'] == o[1]))
+                     else res.diverge(f'step {info["step"]} mdcev_row_split', info, _brief(a), _brief(o[1])), info)
+            elif op[0] == 'sizes':
+                o = outcome(lambda: [int(d.get_number_of_observations()), int(d.get_sample_size())])
+                n = len(before['rows'])
+                if before['panel'] is None:
+                    exp = [n, n]
+                else:
+                    jp = before['cols'].index(before['panel'])
+                    exp = [n, len({r[1][jp] for r in before['rows']})]
+                if o != ('ok', exp):
+                    res.violate(f'step {step} get_number_of_observations / get_sample_size = {o[1]}: the table has {exp[0]} rows and {exp[1]} {"individuals" if before["panel"] else "rows"}',
+                                info, o[1], exp, where='Database.get_sample_size')
+                badd(ctx, res, {'op': 'sizes', 'db': for_model(before)},
+                     lambda a, o=o, info=info: None if [a.get('n_obs'), a.get('sample_size')] == o[1] else res.diverge(f'step {info["step"]} sizes', info, a, o[1]), info)
             elif op[0] == 'groups':
                 import biogeme.tools.database as tdb
 
-                o = outcome(lambda: int(tdb.count_number_of_groups(d.data.copy(), op[1])))
+                # on the frame itself, as Database.panel calls it (the temporary column must be gone afterwards: checked below)
+                o = outcome(lambda: int(tdb.count_number_of_groups(d.data, op[1])))
                 j = before['cols'].index(op[1])
                 vals = [r[1][j] for r in before['rows']]
                 exp = sum(1 for i, v in enumerate(vals) if i == 0 or vals[i - 1] != v)
@@ -929,6 +1211,130 @@ CORPUS += [
 ]
 
 
+CORPUS += [
+    # flatten_database called directly: a panel file stored wave by wave with labels that are not positions; one late row; every option
+    {'kind': 'ops', 'np_seed': 11, 'table': {'cols': ['id', 'z', 'a', 'w'], 'index': [5, 3, 9, 7, 0, 1], 'int_cols': ['id', 'w'],
+                                              'rows': [[1, 20.0, 1.5, 1], [2, 30.0, 2.0, 1], [3, 40.0, 3.0, 1], [1, 20.0, 4.0, 2], [2, 30.0, 5.0, 2], [3, 40.0, 6.0, 2]]},
+     'ops': [['flatten_direct', 'id', None, None], ['flatten_direct', 'id', 'w', None], ['flatten_direct', 'id', None, []], ['flatten_direct', 'id', None, ['z']],
+             ['flatten_direct', 'id', 'z', None], ['flatten_direct', 'nope', None, None], ['flatten_direct', 'id', None, ['nope']], ['flatten_direct', 'id', 'id', None],
+             ['groups', 'id'], ['row_split', None], ['row_split', [4, 0]], ['row_split', [6]], ['sizes'], ['mdcev_count', ['a', 'z'], 'cnt'], ['mdcev_count', ['w', 'w', 'cnt'], 'z'],
+             ['mdcev_count', ['a', 'nope'], 'b2'],
+             ['remove', ['eq', ['var', 'a'], ['num', f2b(5.0)]]], ['flatten_direct', 'id', None, None], ['flatten_direct', 'w', None, None], ['sizes']]},
+    {'kind': 'ops', 'np_seed': 12, 'table': {'cols': ['x10', 'id'], 'index': [0, 1, 2, 3, 4], 'int_cols': ['id'],
+                                              'rows': [[4.0, 1], [4.0, 1], [5.0, 2], [5.0, 2], [6.0, 1]]},
+     'ops': [['flatten_direct', 'id', None, None], ['flatten_direct', 'id', None, ['x10']], ['groups', 'id'], ['sizes']]},
+]
+
+
+# F-E9 (external engine, listed): a formula that READS a column holding the missing-data code 99999 on some row of a table of
+# more than a few rows is refused by the engine (RuntimeError) — and the refusal corrupts the heap of the process (worker threads
+# keep running while one throws): 'double free or corruption', 'malloc(): unsorted double linked list corrupted' or SIGSEGV, at
+# once or in any later, valid call.  Observed (300 repetitions each, fresh processes) with values_from_database, add_column, remove,
+# float and int64 columns, 14 rows; a single refusal followed by valid evaluations is enough; NOT with 1, 2, 4 rows, not when the
+# formula does not read the column, never without a refusal.  The code 99999 is reached by computed columns too
+# (w + (z + x10) = -4 + 100003 + 0).  The streams exclude the shape by construction (run_ops_case never hands such a formula to
+# the engine); the listed input is run first, in a child of its own.
+FE9_CASE = {'kind': 'ops', 'np_seed': 13, 'table': {'cols': ['m', 'x'], 'index': list(range(3, 17)), 'int_cols': [],
+                                                    'rows': [[float(i + 1) if i != 8 else MISSING_CODE, i / 4.0] for i in range(14)]},
+            'ops': [['values', ['add', ['var', 'm'], ['var', 'x']]]]}
+CORPUS += [
+    FE9_CASE,
+    # the same through a computed column (found by the thorough tier): zz = w + (z + x10) is 99999 on the 9th row
+    {'kind': 'ops', 'np_seed': 14, 'table': {'cols': ['w', 'x10', 'z', 'id'], 'index': [4, 6, 7, 9, 18, 23, 24, 27, 28, 33, 35, 36, 42, 43], 'int_cols': ['w', 'z'],
+                                              'rows': [[3.0, 0.0, 100003.0, 1.0], [5.0, 1e-12, 100000.0, 1.0], [-4.0, 0.0, 100002.0, 1.0], [2.0, 0.0, 100002.0, 3.0],
+                                                       [-3.0, 1e-20, 100000.0, 3.0], [0.0, 1e-20, 100003.0, 2.0], [4.0, 0.0, 100000.0, 2.0], [1.0, 0.0, 100001.0, 2.0],
+                                                       [-4.0, 0.0, 100003.0, 2.0], [1.0, 1e-12, 100001.0, 5.0], [5.0, -1e-09, 100003.0, 5.0], [6.0, 1e-12, 100002.0, 5.0],
+                                                       [1.0, 1e-12, 100002.0, 5.0], [2.0, 1e-12, 100001.0, 5.0]]},
+     'ops': [['add_column', 'zz', ['add', ['var', 'w'], ['add', ['var', 'z'], ['var', 'x10']]]],
+             ['add_column', 'n1', ['ge', ['num', f2b(2.000000001)], ['sub', ['var', 'zz'], ['var', 'zz']]]], ['counts', 'zz', 7]]},
+]
+
+
+def reads_code(cols, rowvals, fm):
+    """the formula reads (names) a column that holds the missing-data code on some row"""
+    for v in set(_vars(fm)):
+        if v in cols:
+            j = cols.index(v)
+            if any(r[j] == MISSING_CODE for r in rowvals):
+                return True
+    return False
+
+
+def reads_missing_code(case):
+    """MATCHER of F-E9, computed from the operations of the case alone (plain Python, no engine): following the table through
+    remove / add_column / define_variable / scale / mdcev_count, some formula handed to the engine (remove, add_column,
+    define_variable, values_from_database) names a column that holds 99999 on a row of the table at that moment"""
+    try:
+        t = (case or {}).get('table') or {}
+        cols = list(t.get('cols') or [])
+        rows = [list(map(float, r)) for r in (t.get('rows') or [])]
+        for op in (case or {}).get('ops') or []:
+            if not rows:
+                return False
+            known = lambda fm: all(v in cols for v in _vars(fm))  # noqa: E731
+            if op[0] == 'remove':
+                if not known(op[1]):
+                    continue
+                if reads_code(cols, rows, op[1]):
+                    return True
+                rows = [r for r in rows if py_eval(op[1], dict(zip(cols, r))) == 0]
+            elif op[0] in ('add_column', 'define_variable'):
+                if op[1] in cols or not known(op[2]):
+                    continue
+                if reads_code(cols, rows, op[2]):
+                    return True
+                rows = [r + [py_eval(op[2], dict(zip(cols, r)))] for r in rows]
+                cols.append(op[1])
+            elif op[0] == 'values':
+                if known(op[1]) and reads_code(cols, rows, op[1]):
+                    return True
+            elif op[0] == 'scale' and op[1] in cols:
+                j = cols.index(op[1])
+                rows = [[v * b2f(op[2]) if i == j else v for i, v in enumerate(r)] for r in rows]
+            elif op[0] == 'mdcev_count' and all(c in cols for c in op[1]):
+                cnt = [float(sum(1 for c in op[1] if r[cols.index(c)] != 0)) for r in rows]
+                if op[2] in cols:
+                    j = cols.index(op[2])
+                    rows = [[n if i == j else v for i, v in enumerate(r)] for r, n in zip(rows, cnt)]
+                else:
+                    rows = [r + [n] for r, n in zip(rows, cnt)]
+                    cols.append(op[2])
+        return False
+    except Exception:  # noqa: BLE001
+        return False
+
+
+def probe_listed_engine_crash(ctx, res, reps=40):
+    """the listed input of F-E9 in a child of its own, BEFORE this process uses the engine: the refused evaluation is repeated,
+    with valid evaluations in between; a child killed by a signal is the listed finding (nondeterministic: no crash is fine)"""
+    import sys
+
+    sys.stdout.flush()
+    sys.stderr.flush()
+    pid = os.fork()
+    if pid == 0:
+        try:
+            null = os.open(os.devnull, os.O_WRONLY)
+            os.dup2(null, 2)     # the dump of the dying child is not an alarm of this check
+            with core.scratch():
+                for _ in range(reps):
+                    d = build_db(FE9_CASE['table'])
+                    for op in FE9_CASE['ops']:
+                        outcome(lambda: d.values_from_database(to_expr(op[1])))
+                    outcome(lambda: d.values_from_database(to_expr(['add', ['var', 'x'], ['var', 'x']])))
+        except BaseException:  # noqa: BLE001
+            os._exit(3)
+        os._exit(0)
+    _, status = os.waitpid(pid, 0)
+    if os.WIFSIGNALED(status):
+        sig = os.WTERMSIG(status)
+        res.violate(f'the process died (signal {sig}) while / after the engine refused a formula that reads the missing-data code 99999 ({reps} repetitions of the listed input)',
+                    FE9_CASE, f'process killed by signal {sig}', 'a RuntimeError of the engine and a process that goes on', where=W_ENGINE_CRASH)
+        res.tally('F-E9 listed input: the child died')
+    else:
+        res.tally('F-E9 listed input: no crash this time (status %d)' % status)
+
+
 def is_dup_case(case):
     idx = ((case or {}).get('table') or {}).get('index') or []
     return len(set(idx)) != len(idx)
@@ -949,7 +1355,7 @@ def has_panel(case):
     return any(op[0] == 'panel' for op in (case or {}).get('ops') or [])
 
 
-MATCHERS = {'duplicate_labels': is_dup_case, 'remove_after_panel': remove_after_panel, 'has_panel': has_panel}
+MATCHERS = {'duplicate_labels': is_dup_case, 'remove_after_panel': remove_after_panel, 'has_panel': has_panel, 'reads_missing_code': reads_missing_code}
 
 
 def run_case(ctx, res, case):
@@ -971,10 +1377,11 @@ def strip_order_known(case):
 
 
 def _guard_batch(ctx, res):
-    """no exception inside a model-comparison callback may end the run: it is recorded as a divergence"""
-    if getattr(ctx.batch, '_guarded', False):
-        return
-    add, add_many = ctx.batch.add, ctx.batch.add_many
+    """no exception inside a model-comparison callback may end the run: it is recorded as a divergence (of `res`; called again
+    with another Result, the wrappers are bound to that one)"""
+    if not hasattr(ctx.batch, '_orig'):
+        ctx.batch._orig = (ctx.batch.add, ctx.batch.add_many)
+    add, add_many = ctx.batch._orig
 
     def wrap(cb, req):
         def guarded(ans):
@@ -992,36 +1399,171 @@ def _guard_batch(ctx, res):
     ctx.batch._guarded = True
 
 
+# ---- the streams: each function draws ONE case from rng and returns (case, tally key or None)
+
+
+def _s_main(rng):
+    return gen_case(rng), None
+
+
+def _s_dup(rng):
+    t = gen_table(rng, dup=True)
+    ops = gen_ops(rng, t)[:4] + [['split', rng.choice([2, 3, 4]), None], ['split', rng.choice([2, 3]), 'id'], ['remove', gen_cond(rng, t['cols'])],
+                                 ['split', 2, rng.choice([None, 'id'])]]
+    return {'kind': 'ops', 'table': t, 'ops': ops, 'np_seed': rng.randint(0, 2**31 - 1)}, None
+
+
+def _s_panel(rng):
+    t = gen_table(rng, panelable=True)
+    ops = [['panel', 'id']] + gen_ops(rng, t, allow_known=True)
+    return {'kind': 'ops', 'table': t, 'ops': ops, 'np_seed': rng.randint(0, 2**31 - 1)}, None
+
+
+def _s_refused_panel(rng):
+    t = gen_table(rng, panelable=False)
+    return {'kind': 'ops', 'table': t, 'ops': [['panel', 'id']] + gen_ops(rng, t)[:3], 'np_seed': rng.randint(0, 2**31 - 1)}, None
+
+
+def _s_magnitudes(rng):
+    # values of different magnitudes: count / remove / panel / flatten must tell nearly equal values apart, also after earlier operations
+    t = gen_table(rng, wide=True)
+    ops = gen_ops(rng, t)[: rng.randint(0, 3)] + [['counts', c, rng.randint(0, 10**6)] for c in rng.sample(t['cols'], min(3, len(t['cols'])))]
+    if t['panelable'] and rng.random() < 0.5:
+        ops += [['panel', 'id'], ['flatten', None], ['split', 2, None], ['groups', 'id']]
+    return {'kind': 'ops', 'table': t, 'ops': ops, 'np_seed': rng.randint(0, 2**31 - 1)}, 'stream: magnitudes'
+
+
+def _s_tools(rng):
+    # the helpers of tools/database.py called directly: groups that are not consecutive, labels that are not positions, every option
+    t = gen_flat_table(rng)
+    cols = t['cols']
+    ops = gen_ops(rng, t)[: rng.randint(0, 2)] if rng.random() < 0.4 else []
+    ops += [['flatten_direct', 'id', None, None]]
+    if 'w' in cols:
+        ops += [['flatten_direct', 'id', 'w', rng.choice([None, None, [c for c in cols if c in ('z',)]])]]
+    ops += [gen_tool_op(rng, cols, merge='id') for _ in range(rng.randint(1, 3))]
+    ops += [['flatten_direct', 'id', None, rng.choice([[], [c for c in cols if c == 'z'], rng.sample(cols, rng.randint(1, len(cols)))])], ['groups', 'id'], ['sizes']]
+    if t['panelable'] and rng.random() < 0.5:
+        ops += [['panel', 'id'], ['flatten', None], ['flatten_direct', 'id', None, None], ['sizes'], ['row_split', None]]
+    return {'kind': 'ops', 'table': t, 'ops': ops, 'np_seed': rng.randint(0, 2**31 - 1)}, 'stream: tools direct, layout ' + t['layout']
+
+
+CHUNK = 3000
+
+
+def _merge(res, r):
+    res.evaluations += r.evaluations
+    res.nontrivial |= r.nontrivial
+    res.samples += r.samples[: max(0, 3 - len(res.samples))]
+    for k, v in r.distribution.items():
+        res.tally(k, v)
+    res.divergences += r.divergences
+    res.violations += r.violations
+    res.known_hits += r.known_hits
+    res.notes += r.notes
+    res.traces_validated += r.traces_validated
+
+
+def _run_stream(ctx, res, rng, n, make):
+    """quick tier: the cases are run in this process.  Thorough tier: in forked children of at most CHUNK cases each (its own
+    random stream drawn from rng, its own batch of model questions, its Result merged here), so that no interpreter lives through
+    tens of thousands of engine / pandas calls (CPython 3.12.1 + pandas died with SIGSEGV at unrelated places after ~10 minutes
+    in one process, the Python stack being in a pure-Python line); the cases of a child that dies are run once more in a fresh
+    child (same random stream): if it dies again the crash is reported with the case it was evaluating, exactly as vcheck reports
+    a crash of the real code; if not, the event is recorded in the notes and the input distribution of the evidence."""
+    if ctx.quick:
+        for _ in range(n):
+            case, tag = make(rng)
+            run_case(ctx, res, case)
+            if tag:
+                res.tally(tag)
+        return
+    import pickle
+    import random
+    import sys
+    import tempfile
+
+    done = 0
+    while done < n:
+        k = min(CHUNK, n - done)
+        done += k
+        sub_seed = rng.getrandbits(64)
+        for attempt in (1, 2):
+            rf = tempfile.mktemp(prefix='c13chunk_')
+            sys.stdout.flush()
+            sys.stderr.flush()
+            pid = os.fork()
+            if pid == 0:
+                code = 0
+                try:
+                    sub, r = random.Random(sub_seed), Result()
+                    ctx.batch.items = []
+                    _guard_batch(ctx, r)
+                    for _ in range(k):
+                        case, tag = make(sub)
+                        run_case(ctx, r, case)
+                        if tag:
+                            r.tally(tag)
+                    ctx.batch.flush()
+                    ctx.batch.flush()
+                    with open(rf, 'wb') as f:
+                        pickle.dump((r, ctx.batch.failed), f)
+                except BaseException:  # noqa: BLE001
+                    import traceback
+
+                    traceback.print_exc()
+                    code = 3
+                sys.stdout.flush()
+                sys.stderr.flush()
+                os._exit(code)
+            _, status = os.waitpid(pid, 0)
+            if os.path.exists(rf):
+                with open(rf, 'rb') as f:
+                    r, failed = pickle.load(f)
+                os.unlink(rf)
+                _merge(res, r)
+                if failed:
+                    ctx.batch.failed = failed
+                break
+            last = None
+            try:
+                if core.PROGRESS_FILE and os.path.exists(core.PROGRESS_FILE):
+                    last = json.loads(open(core.PROGRESS_FILE).read())
+            except Exception:  # noqa: BLE001
+                last = None
+            sig = os.WTERMSIG(status) if os.WIFSIGNALED(status) else None
+            if attempt == 1:
+                # the same cases (same random stream) are run once more in a fresh child: a crash that the inputs determine dies
+                # again and is reported with the case; one that does not come back is the interpreter / the machine, not the property
+                res.tally('thorough: a child died (signal %s) and its cases were run again' % sig)
+                res.notes.append(f'a child of the thorough tier died (signal {sig}, status {status}) near case {json.dumps(last, default=str)[:300]}; its {k} cases were run again')
+                continue
+            if sig is not None:
+                res.violate(f'the process died twice (signal {sig}, status {status}) while the real code evaluated these cases', last,
+                            f'process killed by signal {sig}', 'a value or a library error', where='process crash')
+            else:
+                res.diverge(f'a child of the check ended twice with status {status} without a result', last, 'a result', f'status {status}')
+
+
 def check(ctx) -> Result:
     res = Result(rule=RULE, tolerance='exact (bit patterns of doubles, labels, names)')
+    import faulthandler
+
+    faulthandler.enable()   # a crash of native code (engine, pandas) leaves the Python stack on stderr
     _guard_batch(ctx, res)
+    probe_listed_engine_crash(ctx, res)
     rng = ctx.rng
-    for c in CORPUS:
-        run_case(ctx, res, c)
-        res.tally('corpus')
-    for _ in range(ctx.n(2500, 30000)):
-        run_case(ctx, res, gen_case(rng))
+    # (thorough tier: also in a child — the parent never starts the threads of the C++ engine, which a forked child could not use)
+    corpus = iter(CORPUS)
+    _run_stream(ctx, res, rng, len(CORPUS), lambda _rng: (next(corpus), 'corpus'))
+    _run_stream(ctx, res, rng, ctx.n(2500, 30000), _s_main)
     # dedicated streams for the shapes of the known findings
-    for _ in range(ctx.n(60, 600)):
-        t = gen_table(rng, dup=True)
-        ops = gen_ops(rng, t)[:4] + [['split', rng.choice([2, 3, 4]), None], ['split', rng.choice([2, 3]), 'id'], ['remove', gen_cond(rng, t['cols'])],
-                                     ['split', 2, rng.choice([None, 'id'])]]
-        run_case(ctx, res, {'kind': 'ops', 'table': t, 'ops': ops, 'np_seed': rng.randint(0, 2**31 - 1)})
-    for _ in range(ctx.n(80, 1000)):
-        t = gen_table(rng, panelable=True)
-        ops = [['panel', 'id']] + gen_ops(rng, t, allow_known=True)
-        run_case(ctx, res, {'kind': 'ops', 'table': t, 'ops': ops, 'np_seed': rng.randint(0, 2**31 - 1)})
-    for _ in range(ctx.n(30, 300)):
-        t = gen_table(rng, panelable=False)
-        run_case(ctx, res, {'kind': 'ops', 'table': t, 'ops': [['panel', 'id']] + gen_ops(rng, t)[:3], 'np_seed': rng.randint(0, 2**31 - 1)})
-    # values of different magnitudes: count / remove / panel / flatten must tell nearly equal values apart, also after earlier operations
-    for _ in range(ctx.n(150, 1500)):
-        t = gen_table(rng, wide=True)
-        ops = gen_ops(rng, t)[: rng.randint(0, 3)] + [['counts', c, rng.randint(0, 10**6)] for c in rng.sample(t['cols'], min(3, len(t['cols'])))]
-        if t['panelable'] and rng.random() < 0.5:
-            ops += [['panel', 'id'], ['flatten', None], ['split', 2, None], ['groups', 'id']]
-        run_case(ctx, res, {'kind': 'ops', 'table': t, 'ops': ops, 'np_seed': rng.randint(0, 2**31 - 1)})
-        res.tally('stream: magnitudes')
+    _run_stream(ctx, res, rng, ctx.n(60, 600), _s_dup)
+    _run_stream(ctx, res, rng, ctx.n(80, 1000), _s_panel)
+    _run_stream(ctx, res, rng, ctx.n(30, 300), _s_refused_panel)
+    _run_stream(ctx, res, rng, ctx.n(150, 1500), _s_magnitudes)
+    _run_stream(ctx, res, rng, ctx.n(140, 1500), _s_tools)
+    _guard_batch(ctx, res)
     check_split_model(ctx, res, rng, ctx.n(200, 2000))
     check_array_split(ctx, res)
     ctx.batch.flush()
